@@ -60,6 +60,88 @@ def h_len(env):
             env.check("oracle:reference-reads-delimited", False, repr(e))
 
 
+LONG_LENS = [125, 126, 127, 128, 129, 16381, 16382, 16383, 16384, 16385]
+LONG_NUMBERS = [1, 15, 16, 2047, 2048]
+
+
+def long_catalogue():
+    from ..shapes import F, Catalogue, Shape, STD_ENUM
+
+    shp = [Shape("Leaf", [F("x", 1, "int32"), F("s", 2, "string")])]
+    for i, n in enumerate(LONG_NUMBERS):
+        shp.append(Shape("S%d" % i, [F("v", n, "string")]))
+        shp.append(Shape("B%d" % i, [F("v", n, "bytes")]))
+        shp.append(Shape("N%d" % i, [F("v", n, "message", msg="Leaf")]))
+        shp.append(Shape("P%d" % i, [F("v", n, "bool", "repeated")]))
+        shp.append(Shape("M%d" % i, [F("v", n, "string", "map", key="string")]))
+    return Catalogue("c09-long", shp, [STD_ENUM])
+
+
+def h_long(env):
+    """length-delimited payloads whose size sits on a boundary of the length-prefix varint (127/128, 16383/16384 bytes), for
+    strings, bytes, nested messages, packed lists and map entries, at field numbers with 1- and 2-byte tags"""
+    import betterproto
+
+    cat = long_catalogue()
+    mod = shapes.build_bp(cat)
+    kind = env.params["kind"]
+    i = env.choose("number", len(LONG_NUMBERS))
+    n = LONG_LENS[env.choose("size", len(LONG_LENS))]
+    c = env.int("c", 0x20, 0x7E)  # one symbolic character / byte, the rest is filler
+    def text(k):
+        if not k:
+            return ""
+        if env.sym:
+            import z3
+
+            from ..symstr import SymStr
+
+            return SymStr([z3.Extract(20, 0, c.t)] + [0x61] * (k - 1))
+        return chr(c) + "a" * (k - 1)
+
+    def blob(k):
+        if not k:
+            return b""
+        if env.sym:
+            import z3
+
+            from ..sym import SymBytes
+
+            return SymBytes([z3.Extract(7, 0, c.t)] + [0x62] * (k - 1))
+        return bytes([c]) + b"b" * (k - 1)
+
+    if kind == "string":
+        m = getattr(mod, "S%d" % i)(v=text(n))
+    elif kind == "bytes":
+        m = getattr(mod, "B%d" % i)(v=blob(n))
+    elif kind == "message":
+        # nested payload = tag(1) + length prefix + L bytes: choose L so that the nested payload is n bytes
+        L = n - 2 if n - 2 < 128 else n - 3
+        m = getattr(mod, "N%d" % i)(v=mod.Leaf(s=text(L)))
+    elif kind == "packed":
+        k = n if n < 1000 else 300  # one byte per element
+        m = getattr(mod, "P%d" % i)(v=[env.bool("b0")] + [True] * (k - 1))
+    else:
+        L = n - 4 if n - 4 < 128 else n - 5  # entry = key field "k" (3 bytes) + value tag + prefix + L
+        m = getattr(mod, "M%d" % i)(v={"k": text(L)})
+    data = bytes(m)
+    env.observe("size", len(data))
+    env.check("len==len(bytes)", m.__len__() == len(data))
+    s2 = betterproto.BytesIO()
+    m.dump(s2, betterproto.SIZE_DELIMITED)
+    env.check("delimited==varint(len)+bytes", s2.getvalue() == sw.length_prefixed(data))
+    back = type(m)().parse(data)
+    env.check("round-trip", back == m)
+    env.check("re-encode-identical", bytes(back) == data)
+    rd = betterproto.BytesIO(s2.getvalue() + s2.getvalue())
+    first = type(m)().load(rd, betterproto.SIZE_DELIMITED)
+    env.check("delimited-read-back", first == m and rd.tell() == len(s2.getvalue()))
+    if not env.sym:
+        ref = shapes.build_ref(cat)
+        r = ref[type(m).__name__].FromString(bytes(data))
+        env.check("oracle:reference-same-size", len(r.SerializeToString()) == len(data))
+
+
 def units(tier):
     u = []
     for kind in catalogue.S1_KINDS:
@@ -75,13 +157,15 @@ def units(tier):
         u.append(("len[s2 %s +unknown]" % name, h_len, {"cat": ["s2", name], "unknown": True}))
     for kind in ("int32", "string", "message"):
         u.append(("len[s1 %s singular +unknown]" % kind, h_len, {"cat": ["s1", kind, "singular"], "unknown": True}))
+    for kind in ("string", "bytes", "message", "packed", "map"):
+        u.append(("long-payload[%s]" % kind, h_long, {"kind": kind}))
     return u
 
 
 BUDGET = {"quick": 150, "thorough": 1500}
 UNIT_PATH_CAP = {"quick": 500, "thorough": 40000}
 BOUNDS = {
-    "quick": "catalogue S1 + 5 map shapes + 10 S2 shapes, 6 of them also with one unknown field (symbolic number 41..2**29-1, wire types 0/1/2/5, "
+    "quick": "payload sizes on the 127/128 and 16383/16384 boundaries of the length prefix (string, bytes, nested message, packed list, map entry; field numbers 1, 15, 16, 2047, 2048); catalogue S1 + 5 map shapes + 10 S2 shapes, 6 of them also with one unknown field (symbolic number 41..2**29-1, wire types 0/1/2/5, "
     "symbolic payload); sizes as C01; S2 units capped at 500 paths (remainder reported as unexplored)",
     "thorough": "same shapes with larger containers and no per-unit cap below 40000 paths",
 }
